@@ -53,4 +53,28 @@ def expectedHasWebseeds : String := "t.useWebseeds && len(t.webseeds) > 0"
 def expectedHasProxy : String := "t.proxy != \"\""
 def expectedPeerHasProxy : String := "peer.proxy != \"\""
 
+/-- how each outbound site chooses between a direct connection and the proxy (source order);
+    reviewed by hand against httpclient/httpclient.go, tor/initial.go, tor/torfile.go,
+    tracker/udp.go, tracker/http.go, webseed/getright.go, webseed/hoffman.go -/
+def expectedProxyRoutes : List Gate := [
+  ⟨"httpclient.Get", "url.Parse", "proxy", ["!(ok)", "!(proxy == \"\")"]⟩,
+  ⟨"httpclient.Get", "dialer.DialContext", "ctx, n, a", ["!(ok)"]⟩,
+  ⟨"httpclient.Get", "Transport.Proxy return", "nil, nil", ["proxy == \"\""]⟩,
+  ⟨"httpclient.Get", "Transport.Proxy return", "url.Parse(proxy)", ["!(proxy == \"\")"]⟩,
+  ⟨"tor.DialClient", "dialer.DialContext", "ctx, \"tcp\", addr.String()", ["!(!addr.Addr().IsGlobalUnicast())", "!(port == 0 || port == 1 || port == 22 || port == 25)", "t.proxy == \"\""]⟩,
+  ⟨"tor.DialClient", "url.Parse", "t.proxy", ["!(!addr.Addr().IsGlobalUnicast())", "!(port == 0 || port == 1 || port == 22 || port == 25)", "!(t.proxy == \"\")"]⟩,
+  ⟨"tor.DialClient", "proxy.FromURL", "u, proxy.Direct", ["!(!addr.Addr().IsGlobalUnicast())", "!(port == 0 || port == 1 || port == 22 || port == 25)", "!(t.proxy == \"\")", "!(err != nil)"]⟩,
+  ⟨"tor.DialClient", "d.DialContext", "ctx2, \"tcp\", addr.String()", ["!(!addr.Addr().IsGlobalUnicast())", "!(port == 0 || port == 1 || port == 22 || port == 25)", "!(t.proxy == \"\")", "!(err != nil)", "!(err != nil)", "!(!ok)"]⟩,
+  ⟨"tor.GetTorrent", "nurl.Parse", "url", []⟩,
+  ⟨"tor.GetTorrent", "httpclient.Get", "\"\", proxy", ["!(err != nil)", "!(err != nil)"]⟩,
+  ⟨"tracker.announceUDP", "dialer.DialContext", "ctx, prot, net.JoinHostPort(url.Hostname(), url.Port())", ["prox == \"\""]⟩,
+  ⟨"tracker.announceUDP", "url.Parse", "prox", ["!(prox == \"\")"]⟩,
+  ⟨"tracker.announceUDP", "proxy.FromURL", "u, proxy.Direct", ["!(prox == \"\")", "!(err != nil)"]⟩,
+  ⟨"tracker.announceUDP", "dialer.Dial", "prot, net.JoinHostPort(url.Hostname(), url.Port())", ["!(prox == \"\")", "!(err != nil)", "!(err != nil)"]⟩,
+  ⟨"tracker.announceHTTP", "nurl.Parse", "tracker.url", []⟩,
+  ⟨"tracker.announceHTTP", "httpclient.Get", "protocol, proxy", ["!(err != nil)", "!(err != nil)"]⟩,
+  ⟨"webseed.GetRight.Get", "httpclient.Get", "\"\", proxy", ["!(err != nil)"]⟩,
+  ⟨"webseed.Hoffman.Get", "nurl.Parse", "ws.url", []⟩,
+  ⟨"webseed.Hoffman.Get", "httpclient.Get", "\"\", proxy", ["!(err != nil)", "!(err != nil)"]⟩ ]
+
 end Storrent.Privacy
